@@ -116,6 +116,7 @@ type Exec struct {
 	modelWrite int
 	hideFrom, hideTo token.Pos // spec name lookup skips Go variables declared in this source range (loop bodies, for invariants)
 	noClosureExpand bool
+	aliases map[string]string // contract name of a renamed local -> its current name
 	loopNodes []ast.Stmt // enclosing loops of the statement being executed (outermost first)
 	curPos    token.Pos  // position of the statement / call being executed
 	anchorOrd map[*ast.CallExpr]int
@@ -332,6 +333,17 @@ func (x *Exec) specEnv(st *State) *Env {
 				}
 			} else if strings.HasPrefix(t.S, "var:") {
 				name = t.S[4:]
+			}
+		}
+		if nw, ok := x.aliases[name]; ok {
+			found := false
+			for o := range st.vars {
+				if o.Name() == name {
+					found = true
+				}
+			}
+			if !found {
+				name = nw
 			}
 		}
 		var best types.Object
